@@ -319,6 +319,12 @@ def check_word(case, ctx):
     if len(w) > 4:
         ctx.label("has_abbreviation")
         p = w[:4]
+        # the library's other word list (SLIP39 shares; many four-letter prefixes occur in both lists) is
+        # asked for the same prefix first: the BIP39 answer must not depend on that
+        from buidl.shamir import SLIP39
+
+        attempt(SLIP39.__getitem__, p)
+        attempt(SLIP39.__getitem__, w)
         require(must(BIP39.__getitem__, "table/by_prefix", p) == i, "table/prefix_resolves_elsewhere",
                 f"{p!r} should be {w!r} ({i})")
         require(must(BIP39.normalize, "table/normalize_prefix", p) == w, "table/normalize_prefix_value")
